@@ -43,6 +43,15 @@
 (*          state (every prefix of every mutated text is a text).          *)
 (*  "edit"  as "text" followed by Eof and <= MaxEdits editing calls on the *)
 (*          parsed document (or on the empty changelog): NormalFormEdited. *)
+(*  "hist"  formatting as part of the history: after Eof on a complete     *)
+(*          well-formed text, <= MaxEdits calls out of: Fmt (observe       *)
+(*          str(changelog) or str(block i)), attribute assignment on ANY   *)
+(*          block through the block object, the in-place container edits   *)
+(*          (other_pairs[k] = v, changes().append / insert / del,          *)
+(*          add_trailing_line), new_block, add_change.  FormatIsCurrent:   *)
+(*          every observed output is the reference Format of the CURRENT   *)
+(*          document (render layer rs; see the section "formatting as part *)
+(*          of the history"); NormalFormHist.                              *)
 (*                                                                         *)
 (* Domain decision made explicit here: assigning author/date to a block    *)
 (* that has no trailer because the input ended inside it (nt = TRUE) is    *)
@@ -62,13 +71,17 @@
 (*   "blankEndsBlock" a blank line inside a block is not a change line     *)
 (*                                          -> NoWarning / BlocksAsWritten *)
 (*   "authorOnTruncated"  drops the Specified guard  -> NormalFormEdited   *)
+(*   "BlockRenderCache"  _format memoises per block, dropped by attribute  *)
+(*                    assignment only                  -> FormatIsCurrent  *)
+(*   "OlderBlocksMemo"  the text of all blocks but the first is memoised,  *)
+(*                    keyed by the number of blocks    -> FormatIsCurrent  *)
 (*   "keepNoDetails"  the rejected ' --' line is kept as a change line:    *)
 (*                    NOT a violation (still a normal form) -- documents   *)
 (*                    that the law is insensitive to it.                   *)
 (***************************************************************************)
 EXTENDS Integers, Sequences, FiniteSets, TLC, Json
 
-CONSTANTS Mode,        \* "lts" | "text" | "edit"
+CONSTANTS Mode,        \* "lts" | "text" | "edit" | "hist"
           Classes,     \* classes a mutation may insert (lts: the classes explored)
           AEAs,        \* allow_empty_author settings explored (subset of BOOLEAN)
           MaxLines,    \* longest text
@@ -263,7 +276,9 @@ BlockFormattable(b) == b.h[1] # None /\ b.h[2] # None /\ b.h[3] # None /\ (b.nt 
 Formattable(d) == \A i \in 1..Len(d.bl) : BlockFormattable(d.bl[i])
 
 \* author / date assigned on a block without trailer: unspecified (module comment)
-Specified(d) == Bug = "authorOnTruncated" \/ \A i \in 1..Len(d.bl) : d.bl[i].nt => (d.bl[i].au = None /\ d.bl[i].da = None)
+\* (likewise a trailing line added to such a block: it is formatted right after the change lines and reads
+\*  back as one of them)
+Specified(d) == Bug = "authorOnTruncated" \/ \A i \in 1..Len(d.bl) : d.bl[i].nt => (d.bl[i].au = None /\ d.bl[i].da = None /\ d.bl[i].tr = <<>>)
 
 \* (package, version, distributions, urgency, changes, author, date) per block
 BlockView(b) == <<b.h[1], b.h[2], b.h[3], b.h[4], b.ch, b.au, b.da>>
@@ -347,23 +362,25 @@ HValid(d, op) ==
      [] OTHER -> op[2] \in 1..n
 InsertAt(s, p, x) == SubSeq(s, 1, p - 1) \o <<x>> \o SubSeq(s, p, Len(s))
 DeleteAt(s, p) == SubSeq(s, 1, p - 1) \o SubSeq(s, p + 1, Len(s))
-\* v: argument tokens (BSet <<value>>, BPair <<pair>>, ChAppend / ChInsert / AddChange <<line id>>,
-\* AddTrailing <<line id>>, NewBlockFull as EditApply)
+\* v: argument tokens (BSet <<value>>, BPair <<pair>>, ChAppend / ChInsert <<line id, 1 if the line is
+\* blank else 0>>, AddChange <<line id>>, AddTrailing <<line id>>, NewBlockFull as EditApply)
+LineClass(v) == IF Len(v) >= 2 /\ v[2] = 1 THEN "Blank" ELSE "Change"
 HApply(d, op, v) ==
    LET i == op[2] IN
    CASE op[1] = "Fmt"         -> d
      [] op[1] = "BSet"        -> IF op[3] <= 4 THEN [d EXCEPT !.bl[i].h[op[3]] = v[1]]
                                  ELSE IF op[3] = 5 THEN [d EXCEPT !.bl[i].au = v[1]] ELSE [d EXCEPT !.bl[i].da = v[1]]
      [] op[1] = "BPair"       -> [d EXCEPT !.bl[i].h = Append(@, v[1])]
-     [] op[1] = "ChAppend"    -> [d EXCEPT !.bl[i].ch = Append(@, [c |-> "Change", id |-> v[1], h |-> <<>>])]
-     [] op[1] = "ChInsert"    -> [d EXCEPT !.bl[i].ch = InsertAt(@, op[3], [c |-> "Change", id |-> v[1], h |-> <<>>])]
+     [] op[1] = "ChAppend"    -> [d EXCEPT !.bl[i].ch = Append(@, [c |-> LineClass(v), id |-> v[1], h |-> <<>>])]
+     [] op[1] = "ChInsert"    -> [d EXCEPT !.bl[i].ch = InsertAt(@, op[3], [c |-> LineClass(v), id |-> v[1], h |-> <<>>])]
      [] op[1] = "ChDelete"    -> [d EXCEPT !.bl[i].ch = DeleteAt(@, op[3])]
      [] op[1] = "AddTrailing" -> [d EXCEPT !.bl[i].tr = Append(@, [c |-> "Blank", id |-> v[1], h |-> <<>>])]
      [] op[1] = "NewBlockFull" -> EditApply(d, "NewBlockFull", v)
      [] op[1] = "AddChange"   -> EditApply(d, "AddChange", v)
 HModelArgs(op, k) ==
    CASE op[1] = "NewBlockFull" -> <<400 + 10 * k, 401 + 10 * k, 402 + 10 * k, 403 + 10 * k, Dflt, 405 + 10 * k, 406 + 10 * k, 300>>
-     [] op[1] \in {"ChAppend", "ChInsert", "AddChange"} -> <<200 + k>>
+     [] op[1] \in {"ChAppend", "ChInsert"} -> <<200 + k, 0>>
+     [] op[1] = "AddChange" -> <<200 + k>>
      [] op[1] = "AddTrailing" -> <<300>>
      [] OTHER -> <<400 + 10 * k>>
 
@@ -503,7 +520,10 @@ EditStep(op) == /\ Mode = "edit" /\ phase = "edit" /\ Len(ops) < MaxEdits
                 /\ D' = EditApply(D, op, ModelArgs(op, Len(ops))) /\ ops' = Append(ops, op)
                 /\ UNCHANGED <<P, aea, sraised, text, gen, budget, phase, rs>>
 
+\* (histories of more than two calls start with a formatting call: "format, then edit, then format";
+\*  all histories of one or two calls are explored)
 HistStep == /\ Mode = "hist" /\ phase = "edit" /\ Len(ops) < MaxEdits
+            /\ Len(ops) >= 2 => ops[1][1] = "Fmt"
             /\ \E op \in HistOps(D) :
                  /\ D' = HApply(D, op, HModelArgs(op, Len(ops)))
                  /\ ops' = Append(ops, op)
